@@ -159,9 +159,11 @@ RelDir(dir, tp)  == LET L == CPL(dir, tp) IN [level |-> Len(dir) - L + 1, tail |
 RelFile(dir, tp) == LET L == CPL(dir, Front(tp)) IN [level |-> Len(dir) - L + 1, tail |-> DropN(tp, L)]
 
 \* "incomplete path" completion of add_import / add_conditional_import (business.models.x -> pyapis.business.models.x).
-\* as-is: whenever the module starts with the suffix; as it should be: only when it is not already complete
+\* as-is (since 6686a9c): when the module starts with the suffix and does not start with "<output package>." - the
+\* output package ITSELF still counts as incomplete; as it should be: only when it is not already complete
 Complete(cx, m, q) ==
-  IF Len(cx.outpkg) >= 2 /\ SPfx(Tail(cx.outpkg), m) /\ (q \/ ~Pfx(cx.outpkg, m)) THEN <<Head(cx.outpkg)>> \o m ELSE m
+  IF Len(cx.outpkg) >= 2 /\ SPfx(Tail(cx.outpkg), m) /\ (IF q THEN ~SPfx(cx.outpkg, m) ELSE ~Pfx(cx.outpkg, m))
+  THEN <<Head(cx.outpkg)>> \o m ELSE m
 
 \* RenderContext.add_import(logical_module, name)  (name "" = None)
 CtxAdd(cx, st, m0, n, q) ==
